@@ -187,6 +187,15 @@ static int do_R(struct lbuf *lb)
 	return do_N(lb);
 }
 
+static int do_P(struct lbuf *lb)
+{
+	if (do_N(lb))
+		return 1;
+	lbuf_unsaved(lb);
+	saved_id = -1;			/* no undo position is the saved one any more */
+	return do_N(lb);
+}
+
 static int do_S(struct lbuf *lb)
 {
 	if (do_N(lb))
@@ -203,9 +212,11 @@ static char *texts[] = {NULL, "a\n", "b\nc\n"};
 #define OP_U (NE + 1)
 #define OP_R (NE + 2)
 #define OP_S (NE + 3)
-#define NFULL (NE + 4)
-static int small_ops[8] = {0 * 9 + 0 * 3 + 1 /* E(first,0,"a") */, 2 * 9 + 0 * 3 + 2 /* E(end,0,"b c") */,
-	0 * 9 + 1 * 3 + 0 /* E(first,1,NULL) */, 1 * 9 + 1 * 3 + 1 /* E(mid,1,"a") */, OP_N, OP_U, OP_R, OP_S};
+#define OP_P (NE + 4)		/* partial write of the own file: lbuf_unsaved() */
+#define NFULL (NE + 5)
+#define NSMALL 9
+static int small_ops[NSMALL] = {0 * 9 + 0 * 3 + 1 /* E(first,0,"a") */, 2 * 9 + 0 * 3 + 2 /* E(end,0,"b c") */,
+	0 * 9 + 1 * 3 + 0 /* E(first,1,NULL) */, 1 * 9 + 1 * 3 + 1 /* E(mid,1,"a") */, OP_N, OP_U, OP_R, OP_S, OP_P};
 
 static int apply(struct lbuf *lb, int op)
 {
@@ -221,6 +232,8 @@ static int apply(struct lbuf *lb, int op)
 		return do_U(lb);
 	if (op == OP_R)
 		return do_R(lb);
+	if (op == OP_P)
+		return do_P(lb);
 	return do_S(lb);
 }
 
@@ -334,7 +347,7 @@ int main(int argc, char **argv)
 			if (enumerate(depth, full, NFULL, first))
 				return 1;
 		} else {
-			if (enumerate(depth, small_ops, 8, first))
+			if (enumerate(depth, small_ops, NSMALL, first))
 				return 1;
 		}
 		printf("OK %ld %ld %ld\n", nseq, nops, nnontriv);
